@@ -80,10 +80,22 @@ def main(argv):
     ap.add_argument('--json')
     ap.add_argument('-v', action='store_true')
     ap.add_argument('--jobs', type=int, default=1)
+    ap.add_argument('--seeded', action='store_true', help='run every seeded/<name>/patch.diff against the check of its own property')
     a = ap.parse_args(argv)
     repo = os.environ.get('PVMON_REPO', '/repo')
     todo = []
-    if a.patch:
+    if a.seeded:
+        import glob
+        for mp in sorted(glob.glob(os.path.join(core.HOME, 'seeded', '*', 'meta.json'))):
+            meta = json.load(open(mp))
+            if a.only and meta['name'] not in a.only.split(','):
+                continue
+            if a.property and meta['property'] != a.property:
+                continue
+            own = meta['property']
+            props = [own] if meta.get('checks', {}).get(own, {}).get('status') != 'missed' else [k for k, v in meta['checks'].items() if v['status'] == 'caught'][:1]
+            todo.append({'name': meta['name'], 'patch': os.path.join(os.path.dirname(mp), 'patch.diff'), 'props': props, 'edits': []})
+    elif a.patch:
         todo = [{'name': os.path.basename(os.path.dirname(os.path.abspath(a.patch))) or a.patch, 'patch': os.path.abspath(a.patch),
                  'props': a.checks.split(',') if a.checks else [], 'edits': []}]
     else:
